@@ -381,6 +381,10 @@ type subtleCtor struct {
 	keyLen int
 	salt   bool
 	build  func(key, salt []byte) (func(in []byte) ([]byte, error), error)
+	// derive, when set, turns the drawn bytes into the bytes handed to the constructor (a public key
+	// from a seed, a scalar in range); buildWith additionally receives the drawn bytes.
+	derive    func(drawn []byte) []byte
+	buildWith func(drawn, key, salt []byte) (func(in []byte) ([]byte, error), error)
 }
 
 func subtleCtors() []subtleCtor {
@@ -391,37 +395,37 @@ func subtleCtors() []subtleCtor {
 		return m.ComputeMAC, nil
 	}
 	return []subtleCtor{
-		{"mac/subtle.NewHMAC", 32, false, func(k, _ []byte) (func([]byte) ([]byte, error), error) { return macFn(macsubtle.NewHMAC("SHA256", k, 32)) }},
-		{"mac/subtle.NewAESCMAC", 32, false, func(k, _ []byte) (func([]byte) ([]byte, error), error) { return macFn(macsubtle.NewAESCMAC(k, 16)) }},
-		{"daead/subtle.NewAESSIV", 64, false, func(k, _ []byte) (func([]byte) ([]byte, error), error) {
+		{name: "mac/subtle.NewHMAC", keyLen: 32, salt: false, build: func(k, _ []byte) (func([]byte) ([]byte, error), error) { return macFn(macsubtle.NewHMAC("SHA256", k, 32)) }},
+		{name: "mac/subtle.NewAESCMAC", keyLen: 32, salt: false, build: func(k, _ []byte) (func([]byte) ([]byte, error), error) { return macFn(macsubtle.NewAESCMAC(k, 16)) }},
+		{name: "daead/subtle.NewAESSIV", keyLen: 64, salt: false, build: func(k, _ []byte) (func([]byte) ([]byte, error), error) {
 			d, err := daeadsubtle.NewAESSIV(k)
 			if err != nil {
 				return nil, err
 			}
 			return func(in []byte) ([]byte, error) { return d.EncryptDeterministically(in, nil) }, nil
 		}},
-		{"prf/subtle.NewHMACPRF", 32, false, func(k, _ []byte) (func([]byte) ([]byte, error), error) {
+		{name: "prf/subtle.NewHMACPRF", keyLen: 32, salt: false, build: func(k, _ []byte) (func([]byte) ([]byte, error), error) {
 			p, err := prfsubtle.NewHMACPRF("SHA256", k)
 			if err != nil {
 				return nil, err
 			}
 			return func(in []byte) ([]byte, error) { return p.ComputePRF(in, 32) }, nil
 		}},
-		{"prf/subtle.NewHKDFPRF", 32, true, func(k, s []byte) (func([]byte) ([]byte, error), error) {
+		{name: "prf/subtle.NewHKDFPRF", keyLen: 32, salt: true, build: func(k, s []byte) (func([]byte) ([]byte, error), error) {
 			p, err := prfsubtle.NewHKDFPRF("SHA256", k, s)
 			if err != nil {
 				return nil, err
 			}
 			return func(in []byte) ([]byte, error) { return p.ComputePRF(in, 48) }, nil
 		}},
-		{"prf/subtle.NewAESCMACPRF", 32, false, func(k, _ []byte) (func([]byte) ([]byte, error), error) {
+		{name: "prf/subtle.NewAESCMACPRF", keyLen: 32, salt: false, build: func(k, _ []byte) (func([]byte) ([]byte, error), error) {
 			p, err := prfsubtle.NewAESCMACPRF(k)
 			if err != nil {
 				return nil, err
 			}
 			return func(in []byte) ([]byte, error) { return p.ComputePRF(in, 16) }, nil
 		}},
-		{"signature/subtle.NewED25519Signer", 32, false, func(k, _ []byte) (func([]byte) ([]byte, error), error) {
+		{name: "signature/subtle.NewED25519Signer", keyLen: 32, salt: false, build: func(k, _ []byte) (func([]byte) ([]byte, error), error) {
 			s, err := sigsubtle.NewED25519Signer(k)
 			if err != nil {
 				return nil, err
@@ -434,19 +438,19 @@ func subtleCtors() []subtleCtor {
 func sitesig(name string) string { return "key-aliasing:" + name }
 
 func TestSubtleConstructorsCopyKeys(t *testing.T) {
-	ctors := subtleCtors()
+	ctors := append(subtleCtors(), moreSubtleCtors()...)
 	for _, sub := range aeadcase.Types {
 		if sub == "XAESGCM" {
 			continue
 		}
 		sub := sub
-		ctors = append(ctors, subtleCtor{"aead/subtle(" + sub + ")", 0, false, nil})
+		ctors = append(ctors, subtleCtor{name: "aead/subtle(" + sub + ")"})
 		_ = sub
 	}
 	rapid.Check(t, func(rt *rapid.T) {
 		detrand.Seed(rapid.Uint64().Draw(rt, "entropy"))
 		c := rapid.SampledFrom(ctors).Draw(rt, "ctor")
-		if c.build == nil {
+		if c.build == nil && c.buildWith == nil {
 			rt.Skip("aead subtle constructors are covered by TestAEADKeysCopied")
 		}
 		p := &probe{t: rt, desc: c.name}
@@ -455,8 +459,18 @@ func TestSubtleConstructorsCopyKeys(t *testing.T) {
 		if c.salt {
 			salt = gen.BytesN(rt, "salt", rapid.IntRange(1, 40).Draw(rt, "saltlen"))
 		}
+		drawn := key
+		if c.derive != nil {
+			key = c.derive(drawn)
+		}
 		keyIn, saltIn := p.in("key", key), p.in("salt", salt)
-		f, err := c.build(keyIn, saltIn)
+		var f func([]byte) ([]byte, error)
+		var err error
+		if c.buildWith != nil {
+			f, err = c.buildWith(drawn, keyIn, saltIn)
+		} else {
+			f, err = c.build(keyIn, saltIn)
+		}
 		if err != nil {
 			rt.Fatalf("%s: %v", c.name, err)
 		}
@@ -477,7 +491,7 @@ func TestSubtleConstructorsCopyKeys(t *testing.T) {
 				kf.Report(propID, sitesig(c.name))
 				evid.Add("excluded_known", 1)
 			} else {
-				rt.Fatalf("%s keeps the caller's key slice: after the caller overwrote its key buffer the primitive's output for input %x changed from %x to %x", c.name, in, before, after)
+				rt.Fatalf("%s keeps the caller's key (or salt) slice: after the caller overwrote its buffers the primitive's output for input %x changed from %q to %q", c.name, in, before, after)
 			}
 		}
 		finish(p, "subtle-ctor/"+c.name, evid.NewH().S(c.name).B(key).B(salt).B(in).Sum(), map[string]any{"constructor": c.name, "key": gen.Hex(key)})
